@@ -19,10 +19,10 @@ import (
 
 // Fault kinds offered at each server step when Net.Faults is on.
 const (
-	FaultNone        = iota
-	FaultDropBefore  // connection dies before the command is executed
-	FaultDropAfter   // command is executed, connection dies before the reply is sent
-	FaultStall       // command is executed, reply is withheld forever (until the conn is closed)
+	FaultNone       = iota
+	FaultDropBefore // connection dies before the command is executed
+	FaultDropAfter  // command is executed, connection dies before the reply is sent
+	FaultStall      // command is executed, reply is withheld forever (until the conn is closed)
 	nFaults
 )
 
